@@ -242,6 +242,36 @@ mod v_iface_seq {
     const PEER_MAC: [u8; 6] = [0x02, 0, 0, 0, 0, 2];
     const PEER_U32: u32 = 0xc0a8_0102;
 
+    /// A transmit token that carries no pointer: the frame is captured in a static.  (A token holding `&mut TxState` that
+    /// travels through the `Result` returned by `lookup_hardware_addr` loses its points-to precision in CBMC once the
+    /// neighbor cache is symbolic: dispatch_ip of the echo reply took 2 M steps and ran out of 12 GB with `CapTx`.)
+    #[allow(unsafe_code)]
+    mod gtx {
+        use super::*;
+        pub(super) const CAP: usize = 64;
+        pub(super) static mut G: TxState<CAP> = TxState { frames: 0, len0: 0, len1: 0, buf0: [0; CAP], buf1: [0; CAP] };
+        pub(super) struct GTx;
+        impl TxToken for GTx {
+            fn consume<R, F: FnOnce(&mut [u8]) -> R>(self, len: usize, f: F) -> R {
+                // single-threaded harness: the only reference to G alive
+                let st: &mut TxState<CAP> = unsafe { &mut *core::ptr::addr_of_mut!(G) };
+                let r;
+                if st.frames == 0 {
+                    st.len0 = len;
+                    r = f(&mut st.buf0[..len]);
+                } else {
+                    st.len1 = len;
+                    r = f(&mut st.buf1[..len]);
+                }
+                st.frames += 1;
+                r
+            }
+        }
+        pub(super) fn captured() -> &'static TxState<CAP> {
+            unsafe { &*core::ptr::addr_of!(G) }
+        }
+    }
+
     /// Ethernet header: destination, source, ethertype
     fn eth_header(f: &mut [u8], dst: &[u8; 6], src: &[u8; 6], ethertype: u16) {
         f[0] = dst[0];
@@ -291,9 +321,14 @@ mod v_iface_seq {
         let k10 = IpAddress::Ipv4(Ipv4Address::new(192, 168, 1, 10));
         let k11 = IpAddress::Ipv4(Ipv4Address::new(192, 168, 1, 11));
         let peer = IpAddress::Ipv4(Ipv4Address::from_bits(PEER_U32));
-        if prefill == 2 {
+        if prefill == 7 {
             iface.inner.neighbor_cache.fill_with_expiration(k10, HardwareAddress::Ethernet(EthernetAddress([0x02, 0, 0, 0, 0, 0x10])), Instant::from_micros(now + 10_000_000));
             iface.inner.neighbor_cache.fill_with_expiration(k11, HardwareAddress::Ethernet(EthernetAddress([0x02, 0, 0, 0, 0, 0x11])), Instant::from_micros(now + 20_000_000));
+            iface.inner.neighbor_cache.fill_with_expiration(IpAddress::Ipv4(Ipv4Address::new(192, 168, 1, 12)), HardwareAddress::Ethernet(EthernetAddress([0x02, 0, 0, 0, 0, 0x12])), Instant::from_micros(now + 21_000_000));
+            iface.inner.neighbor_cache.fill_with_expiration(IpAddress::Ipv4(Ipv4Address::new(192, 168, 1, 13)), HardwareAddress::Ethernet(EthernetAddress([0x02, 0, 0, 0, 0, 0x13])), Instant::from_micros(now + 22_000_000));
+            iface.inner.neighbor_cache.fill_with_expiration(IpAddress::Ipv4(Ipv4Address::new(192, 168, 1, 14)), HardwareAddress::Ethernet(EthernetAddress([0x02, 0, 0, 0, 0, 0x14])), Instant::from_micros(now + 23_000_000));
+            iface.inner.neighbor_cache.fill_with_expiration(IpAddress::Ipv4(Ipv4Address::new(192, 168, 1, 15)), HardwareAddress::Ethernet(EthernetAddress([0x02, 0, 0, 0, 0, 0x15])), Instant::from_micros(now + 24_000_000));
+            iface.inner.neighbor_cache.fill_with_expiration(IpAddress::Ipv4(Ipv4Address::new(192, 168, 1, 16)), HardwareAddress::Ethernet(EthernetAddress([0x02, 0, 0, 0, 0, 0x16])), Instant::from_micros(now + 25_000_000));
         }
 
         // frame 1: the peer asks for our hardware address
@@ -327,17 +362,20 @@ mod v_iface_seq {
         eth_header(&mut f2, if to_bcast { &[0xff; 6] } else { &OWN_MAC }, &smac2, 0x0806);
         let arp: [u8; 28] = kani::any();
         f2[14..].copy_from_slice(&arp);
-        let r2 = iface.inner.process_ethernet(&mut sockets, PacketMeta::default(), &f2[..], &mut iface.fragments);
-        let r2_arp = matches!(r2, Some(EthernetPacket::Arp(_)));
-        crate::vassert!(r2.is_none() || r2_arp, "prop:c03_arp_answered_by_arp_only");
+        let mut r2_arp = false;
+        if mode & 4 != 0 {
+            let r2 = iface.inner.process_ethernet(&mut sockets, PacketMeta::default(), &f2[..], &mut iface.fragments);
+            r2_arp = matches!(r2, Some(EthernetPacket::Arp(_)));
+            crate::vassert!(r2.is_none() || r2_arp, "prop:c03_arp_answered_by_arp_only");
+        }
         let claims_peer = arp[14] == 192 && arp[15] == 168 && arp[16] == 1 && arp[17] == 2;
-        let evicted = prefill == 2 && !iface.inner.neighbor_cache.lookup(&k10, t0).found();
+        let evicted = prefill == 7 && !iface.inner.neighbor_cache.lookup(&k10, t0).found();
 
         // frame 3: IPv4 packet for the own address, any protocol, any source, free upper-layer octets
         let mut f3: [u8; 46] = kani::any();
         let smac3: [u8; 6] = kani::any();
         eth_header(&mut f3, &OWN_MAC, &smac3, 0x0800);
-        let proto: u8 = kani::any();
+        let proto: u8 = if mode & 8 != 0 { kani::any() } else { 17 };
         ipv4_header(&mut f3[14..], 32, proto, kani::any(), OWN_U32);
         let mut r3_some = false;
         if mode & 1 != 0 {
@@ -364,23 +402,23 @@ mod v_iface_seq {
         let seq: u16 = kani::any();
         put16(&mut f4, 38, ident);
         put16(&mut f4, 40, seq);
-        let mut tx = TxState::<64>::new();
         let r4 = iface.inner.process_ethernet(&mut sockets, PacketMeta::default(), &f4[..], &mut iface.fragments);
         let mut echo_ok = false;
         let mut sent_ok = false;
         if let Some(EthernetPacket::Ip(p)) = r4 {
             echo_ok = reply_is_echo_from_own(&p);
             if mode & 2 != 0 {
-                sent_ok = iface.inner.dispatch_ip(CapTx { st: &mut tx }, PacketMeta::default(), p, &mut iface.fragmenter).is_ok();
+                sent_ok = iface.inner.dispatch_ip(gtx::GTx, PacketMeta::default(), p, &mut iface.fragmenter).is_ok();
             }
         }
         kani::cover!(r2_arp && !claims_peer, "free ARP frame was a valid request from a new sender: reply produced");
-        kani::cover!(if prefill == 2 { evicted } else { r2_arp && claims_peer && peer_hw != Some(PEER_MAC) }, "full cache: the oldest entry evicted by the free ARP frame / otherwise: the frame claimed the peer's address for another hardware address");
+        kani::cover!(if prefill == 7 { evicted } else { r2_arp && claims_peer && peer_hw != Some(PEER_MAC) }, "full cache: the oldest entry evicted by the free ARP frame / otherwise: the frame claimed the peer's address for another hardware address");
         kani::cover!(if mode & 1 != 0 { r3_some && proto == 6 } else { true }, "protocol unreachable sent for frame 3");
         crate::vassert!(echo_ok, "prop:c03_echo_request_answered_after_arbitrary_frames");
         if mode & 2 == 0 {
             return;
         }
+        let tx = gtx::captured();
         crate::vassert!(sent_ok && tx.frames == 1 && tx.len0 == 46, "prop:c03_echo_reply_handed_to_the_device");
         let b = &tx.buf0;
         if let Some(hw) = peer_hw {
@@ -395,26 +433,26 @@ mod v_iface_seq {
     #[cfg(all(feature = "proto-ipv4", feature = "medium-ethernet", feature = "socket-udp", not(feature = "medium-ip")))]
     #[kani::proof]
     pub(crate) fn seq4_eth_arp_ip_then_echo() {
-        eth_seq_case(0, 3);
+        eth_seq_case(0, 15);
     }
 
     // @harness props=C03 cfg=KE4u tier=q to=1800 mem=12 unwind=7 opts=nomem covers=3 funcs=InterfaceInner::process_ethernet;InterfaceInner::process_arp;ArpRepr::parse;neighbor::Cache::fill;InterfaceInner::process_ipv4;InterfaceInner::process_udp;InterfaceInner::process_icmpv4;InterfaceInner::dispatch_ip;InterfaceInner::lookup_hardware_addr bounds=as_seq4_eth_arp_ip_then_echo_with_a_neighbor_cache_that_is_FULL_after_frame_1:_two_older_concrete_entries_for_192.168.1.10/.11,_so_that_a_new_sender_in_frame_2_evicts_the_oldest
     #[cfg(all(feature = "proto-ipv4", feature = "medium-ethernet", feature = "socket-udp", not(feature = "medium-ip")))]
     #[kani::proof]
     pub(crate) fn seq4_eth_arp_evict_ip_then_echo() {
-        eth_seq_case(2, 3);
+        eth_seq_case(7, 15);
     }
 
     // @harness props=C03 cfg=KE4u tier=t to=1200 mem=12 unwind=7 opts=nomem covers=3 bounds=experiment
     #[cfg(all(feature = "proto-ipv4", feature = "medium-ethernet", feature = "socket-udp", not(feature = "medium-ip")))]
     #[kani::proof]
     pub(crate) fn x_eth_e1() {
-        eth_seq_case(0, 2);
+        eth_seq_case(0, 9);
     }
     // @harness props=C03 cfg=KE4u tier=t to=1200 mem=12 unwind=7 opts=nomem covers=3 bounds=experiment
     #[cfg(all(feature = "proto-ipv4", feature = "medium-ethernet", feature = "socket-udp", not(feature = "medium-ip")))]
     #[kani::proof]
     pub(crate) fn x_eth_e2() {
-        eth_seq_case(2, 2);
+        eth_seq_case(0, 1);
     }
 }
